@@ -444,7 +444,21 @@ pub fn register(m: &mut HashMap<&'static str, OpFn>) {
         let d2 = sk.verifying_key().to_public_key_der().expect("to_public_key_der");
         let back1 = SigningKey::from_pkcs8_der(d1.as_bytes()).map(|k| hex(&k.to_bytes())).unwrap_or_else(|_| "err".into());
         let back2 = VerifyingKey::from_public_key_der(d2.as_bytes()).map(|k| hex(k.as_bytes())).unwrap_or_else(|_| "err".into());
-        vec![hex(d1.as_bytes()), hex(d2.as_bytes()), back1, back2]
+        // the by-value / by-reference conversions to and from the pkcs8 byte wrappers, and the algorithm identifiers
+        use ed25519_dalek::pkcs8::spki::DynSignatureAlgorithmIdentifier;
+        use ed25519_dalek::pkcs8::{KeypairBytes, PublicKeyBytes};
+        let kb1 = KeypairBytes::from(&sk);
+        let kb2 = KeypairBytes::from(sk.clone());
+        let pb1 = PublicKeyBytes::from(&sk.verifying_key());
+        let pb2 = PublicKeyBytes::from(sk.verifying_key());
+        let kbs = |k: &KeypairBytes| format!("{}{}", hex(&k.secret_key), k.public_key.map(|p| hex(&p.0)).unwrap_or_else(|| "~".into()));
+        let oid1 = sk.signature_algorithm_identifier().map(|a| format!("{}:{}", a.oid, a.parameters.is_none())).unwrap_or_else(|_| "err".into());
+        let oid2 = sk.verifying_key().signature_algorithm_identifier().map(|a| format!("{}:{}", a.oid, a.parameters.is_none())).unwrap_or_else(|_| "err".into());
+        let (o1, o2, p1, p2) = (kbs(&kb1), kbs(&kb2), hex(&pb1.0), hex(&pb2.0));
+        let v1 = VerifyingKey::try_from(pb1).map(|k| hex(k.as_bytes())).unwrap_or_else(|_| "err".into());
+        let v2 = VerifyingKey::try_from(&pb2).map(|k| hex(k.as_bytes())).unwrap_or_else(|_| "err".into());
+        let s1 = SigningKey::try_from(kb2).map(|k| hex(&k.to_keypair_bytes())).unwrap_or_else(|_| "err".into());
+        vec![hex(d1.as_bytes()), hex(d2.as_bytes()), back1, back2, o1, o2, p1, p2, oid1, oid2, v1, v2, s1]
     });
     // the signature-crate trait entry points that take no context: seed msg sig-to-verify
     //   -> DigestSigner sig, DigestVerifier(vk) of it, Verifier(SigningKey) of the given sig, Verifier(vk) of the given sig,
